@@ -421,7 +421,7 @@ int run_harness(std::string const& harness_name, options const& opt, BodyS body_
         {
             trap::armed() = true;
             if (setjmp(trap::buf()) == 0) body_dbl(h);
-            else h.failed.insert("no_stdlib_assertion");
+            else h.failed.insert("no_assertion_failure");
             trap::armed() = false;
         }
         catch (std::exception const& ex) { threw = true; what = ex.what(); }
@@ -462,7 +462,7 @@ int run_harness(std::string const& harness_name, options const& opt, BodyS body_
                 // a libstdc++ assertion (e.g. vector index out of range) fired on this path
                 trap::armed() = false;
                 g.events.push_back("ASSERT:" + trap::message());
-                h.check("no_stdlib_assertion", cond<real>(false));
+                h.check("no_assertion_failure", cond<real>(false));
                 finished = true;
             }
             trap::armed() = false;
@@ -527,10 +527,16 @@ int run_harness(std::string const& harness_name, options const& opt, BodyS body_
         {
             trap::armed() = true;
             if (setjmp(trap::buf()) == 0) body_dbl(hd);
-            else hd.failed.insert("no_stdlib_assertion");
+            else hd.failed.insert("no_assertion_failure");
             trap::armed() = false;
         }
-        catch (std::exception const&) { hd.failed.insert(v.check + "#exception"); }
+        catch (std::exception const& ex)
+        {
+            // the real code, run concretely on the counterexample, ends in an exception the harness
+            // does not expect: the misbehaviour reproduces (in a different guise)
+            hd.failed.insert(v.check);
+            v.note += std::string("replay threw: ") + ex.what() + ";";
+        }
         catch (abort_path const&) {}
         v.confirmed = hd.failed.count(v.check) != 0;
         if (v.confirmed) ++res.checks[v.check].confirmed;
@@ -593,6 +599,20 @@ __attribute__((noreturn)) void __glibcxx_assert_fail(const char* file, int line,
     std::fprintf(stderr, "assertion failed outside path: %s:%d %s\n", file, line, condition);
     std::abort();
 }
+}
+
+// interposes glibc's handler for failed assert() (the library's headers use <cassert>)
+extern "C" __attribute__((noreturn)) void __assert_fail(const char* assertion, const char* file,
+    unsigned int line, const char* function) noexcept
+{
+    if (sym::trap::armed())
+    {
+        sym::trap::message() = std::string(file ? file : "?") + ":" + std::to_string(line) + ": assert(" +
+            (assertion ? assertion : "?") + ") in " + (function ? std::string(function).substr(0, 120) : "?");
+        std::longjmp(sym::trap::buf(), 1);
+    }
+    std::fprintf(stderr, "assertion failed outside path: %s:%u %s\n", file, line, assertion);
+    std::abort();
 }
 
 #define VERIF_MAIN(NAME, BODY)                                                                    \
